@@ -115,6 +115,11 @@ fn render_proj(p: &PProg) -> String {
         2 => format!("# a PROJ pipeline\r\n{}\r\n", lines.join("   # trailing comment\r\n")),
         3 => lines.join("\n\t"),
         5 => lines.join(" ").replace('=', " = "),
+        // 6..9: white space other than blank, tab and line break between all tokens
+        6 => lines.join(" ").replace(' ', "\u{c}"),
+        7 => lines.join(" ").replace(' ', "\u{b}"),
+        8 => lines.join(" ").replace(' ', "\u{a0}"),
+        9 => lines.join("\u{2003} "),
         _ => format!("# geodesy: a | b\n{}\n", lines.join("   # was: x | y\n")),
     }
 }
@@ -278,7 +283,7 @@ fn enumerate(rep: &Report, kinds: &[usize], len: usize, label: &str, keep: &(dyn
     let step_variants: Vec<PStep> = kinds.iter().flat_map(|&k| (0..6u8).map(move |m| PStep { kind: k, modifier: m })).collect();
     let a = step_variants.len();
     // options: pipeline_inv(2) x globals(5) x plus(3) x layout(5) x explicit(2) x mod_first(2)
-    let opt_radix = [2usize, GLOBALS.len(), 3, 6, 2, 2];
+    let opt_radix = [2usize, GLOBALS.len(), 3, 10, 2, 2];
     let nopt = product(&opt_radix);
     let total = a.pow(len as u32) * nopt;
     let outcomes = Mutex::new(HashSet::new());
@@ -423,20 +428,21 @@ pub fn run(tier: Tier) -> Report {
     rep.assume("the shared operators mean the same in both syntaxes (only the translation is judged); the reference rendering puts globals before step-local values (last wins)");
     let wd = enter_private_workdir();
     let all: Vec<usize> = (0..KINDS.len()).collect();
-    let every = |_: &[usize]| true;
+    let every = |o: &[usize]| o[3] < 6;
     enumerate(&rep, &all, 1, "all^1", &every);
     match tier {
         Tier::Quick => {
             // o = [pipeline inv, globals, plus style, layout, explicit, modifier first]
-            enumerate(&rep, &all, 2, "all^2 (layouts 0,2,3,5; no pipeline-level parameters with layout 4)", &|o: &[usize]| o[3] != 1 && (o[3] != 4 || o[1] == 0));
+            enumerate(&rep, &all, 2, "all^2 (layouts 0,2,3,5; no pipeline-level parameters with layout 4)", &|o: &[usize]| o[3] < 6 && o[3] != 1 && (o[3] != 4 || o[1] == 0));
             enumerate(&rep, &[1, 4], 3, "two^3 (no plus signs, layouts 0,3)", &|o: &[usize]| o[2] == 0 && (o[3] == 0 || o[3] == 3));
         }
         Tier::Thorough => {
             enumerate(&rep, &all, 2, "all^2", &every);
-            enumerate(&rep, &[0, 1, 2, 4, 5, 11], 3, "six^3", &|o: &[usize]| o[3] != 1);
-            enumerate(&rep, &[1, 4], 4, "two^4", &|o: &[usize]| o[2] != 2);
+            enumerate(&rep, &[0, 1, 2, 4, 5, 11], 3, "six^3", &|o: &[usize]| o[3] < 6 && o[3] != 1);
+            enumerate(&rep, &[1, 4], 4, "two^4", &|o: &[usize]| o[3] < 6 && o[2] != 2);
         }
     }
+    enumerate(&rep, &[0, 1, 4], 2, "three^2 (form feed, vertical tab, no-break space, em space between the tokens; no pipeline-level parameters)", &|o: &[usize]| o[3] >= 6 && o[1] == 0 && o[4] == 0);
     refusals_and_passthrough(&rep);
     leave_private_workdir(&wd);
     rep
